@@ -217,7 +217,7 @@ let do_region (idx : int) (d : dreg) =
                   (idxs (fun _ c -> gap_ok d.d_base sep c) cs)
                   (if sat then idxs (fun i v -> var_ok v (List.nth last.i_x i)) g.gvs else "")
                   (if sat && List.length pos = List.length d.d_segs then
-                     idxs (fun i s -> seg_written_ok tol6 s (List.nth last.i_x (int_of_nat (seg_var g (nat_of_int i)))) (List.nth pos i)) d.d_segs
+                     idxs (fun i s -> seg_written_ok d.d_unify tol6 s (List.nth last.i_x (int_of_nat (seg_var g (nat_of_int i)))) (List.nth pos i)) d.d_segs
                    else "-"));
           "0" end
     | _ -> "na" in
